@@ -12,8 +12,18 @@ GEN     Gen_Present: every string of length <= n over {a SP LF " ( ) ; \\ $ NUL 
         one was given), line >= 1 and column (read from Error(): the type exports no accessor), no Open
         when includes are off, TotalAlloc <= 2048 len + 4 MiB (sampled), and: lexically ill-formed
         (unbalanced ")", "(" open at the end, unterminated quote; not `odd') => an error is reported.
-        Gen_Zone "seq" N = 1: every line shape alone under every configuration (include disallowed /
-        missing file / self-include / nested $GENERATE / bad range expected as errors by the spec).
+        Gen_Zone "ofile" (one run, three universes; the thorough tier adds every PAIR of the 12 safety shapes under every
+        configuration): (a) every line shape alone under every configuration (include disallowed / missing file /
+        self-include / nested $GENERATE / bad range expected as errors by the spec); (b) "error then more": each way abstract
+        lines can make the parser fail ($INCLUDE of a missing file with / without origin argument, $GENERATE with a bad range /
+        nested / with a malformed modifier / whose k-th record is bad, $INCLUDE while includes are off) at the top level, in an
+        included file and in a file included from an included file, with a record before it and a record, a $INCLUDE, a
+        $GENERATE and a record AFTER it in every file; (c) "any origin": the initial origin is TEXT (~60 strings: valid ones up to
+        255 octets, empty labels, labels of 64, names of 256+, escapes, seeded random strings over {a . \\ 0 1 9 SP @}) and
+        Zone!OriginOfText says whether the parser is in error before the first line (then: no record, no Open, whatever the
+        zone says).  These vectors are replayed by a PERSISTENT consumer: after the first (nil, false) Next is called again
+        until three calls in a row return nothing, and whatever it hands out counts as returned -- the vector's record list
+        ("no further records once an error has occurred") judges it (zone/accepts:<kind of line>, zone/accepts:initial-origin).
 TV      harness `zone hostile`: structured families ($INCLUDE in all 128 case variants x whitespace with
         includes disabled, look-alikes, the real file system behind an include FS, self / mutual include,
         chains 1..12, $GENERATE expanding to $GENERATE, ranges around 65535/65536, malformed modifiers,
@@ -28,9 +38,16 @@ TV      harness `zone hostile`: structured families ($INCLUDE in all 128 case va
         recorded as zone/hostile:hang:<family>[:<TYPE>] and the harness process then ends, skipping its remaining cases);
         $GENERATE widths 3..3000000 with the allocation guard and the spec's verdict (width <= 255); the histories
         next -> rr | err | eof, open(path) of those runs and of a sample of the generated texts are
-        validated by Trace_Zone's sticky-error machine (blocking), io-error family: the zone's reader / an included file / a file
+        validated by Trace_Zone's sticky-error machine (blocking) -- as are the histories of all the zone vectors above (parser
+        events of the "any origin" vectors carry the origin text: with one Zone!OriginOfText refuses only next -> err is admitted);
+        Err() is also asked before the first Next and after every record (`poll' events, logged when the answer changes): the machine
+        is in the error state as soon as Err() shows an error, not only once Next has returned false; family error-then-more: 18 kinds of
+        failing entry (syntax errors of each kind -- TLC confirms, ill = "bad", that an error is due --, lexical ones, $INCLUDE of a missing
+        file / a directory / with garbage, the $GENERATE errors) at include depth 0 / 1 / 2 with records following in every file, and a
+        $INCLUDE the real file system cannot open; io-error family: the zone's reader / an included file / a file
         included at depth 2 / a 3 KiB include fails with an I/O error after k bytes (every k for the small ones), a directory as
-        include target; the injecting wrapper logs `readfail', after which the machine admits only next -> err; and wherever a family text spells
+        include target, and TRANSIENT failures (the reader hands out the error once, between two entries, and would go on delivering);
+        the injecting wrapper logs `readfail', after which the machine admits only next -> err; and wherever a family text spells
         abstract lines the per-line events are judged by Zone.tla (error due or not, records).
 
 Mutants (checks/mutants/C07/*.diff, run like C06's; exit 1 with seed 1 unless noted):
@@ -39,10 +56,17 @@ Mutants (checks/mutants/C07/*.diff, run like C06's; exit 1 with seed 1 unless no
                                                                              the process survives), Trace_Zone chain bound, zone/accepts:include (spec: self-include must fail)
   generate-nesting-not-propagated  sub-parser of $GENERATE may $GENERATE     families nested-generate (TLC confirms the text is a nested $GENERATE): ill-formed-accepted:nested-generate
   generate-range-guard-off-by-one  0-65536 accepted                          families generate: zone/hostile:gen>65536; Gen_Zone "gen"/shapes in C06: zone/accepts:generate:range>65536
-  parse-error-not-sticky           Next goes on after an error               harness (not-sticky) + Trace_Zone (zone/sticky:next:rr, :next:err)
+  parse-error-not-sticky           Next goes on after an error               harness (not-sticky) + Trace_Zone (zone/sticky:next:rr, :next:err) + vectors (zone/accepts:include, :generate, :initial-origin)
   lexer-error-not-sticky           zlexer.Next goes on after l.err           prefixes: zone/hostile:hang:prefix:APL (= seeded C07-4: with "(" open at end of input the lexer returns
                                                                              its error token for ever and the APL / SVCB rdata loops never end) -- I had first judged this
                                                                              mutant unobservable; the hang watchdog ends the harness process after reporting
+  read-error-not-sticky            zlexer.readByte retries after a non-EOF error   io-error family, transient failures: zone/hostile:not-sticky; vectors (the error of a $GENERATE's rewriting
+                                                                             reader is a read error of the sub-parser: records after it) zone/accepts:generate, zone/accepts:include;
+                                                                             Trace_Zone zone/sticky:next:rr, :next:eof (the error vanishes at the end of the input), :next:err
+  bad-initial-origin-not-fatal     the origin error is kept in a field Next ignores   vectors "any origin": zone/accepts:initial-origin; Trace_Zone: zone/sticky:next:rr (poll err, then next -> rr)
+  include-open-failure-not-fatal   the failed-Open error is kept in a field Next ignores   vectors error-then-more / shapes: zone/accepts:include; families error-then-more: zone/hostile:not-sticky; Trace_Zone zone/sticky:next:rr
+  seeded C07-17 (failed state moved into the lexer; parseErr assigned directly for a bad initial origin and a failed Open never stops it)
+                                                                             the three above: zone/accepts:initial-origin, zone/accepts:include, zone/hostile:not-sticky, zone/sticky:next:rr
   seeded C07-14 (buffer growth check split by comment state: com[512] written)   families buffer-boundary: zone/hostile:panic
   seeded C07-7 (I/O error of an included file's reader dropped by subNext)  families io-error: zone/hostile:io-error-lost:include, :nested, :include-big, :directory
   seeded C07-2 (LOC altitude indexes an empty token at end of input)         prefixes: zone/hostile:panic:prefix:LOC
@@ -67,11 +91,40 @@ def sticky_key(e):
     return "zone/sticky:%s:%s" % (e.get("ev"), e.get("res", ""))
 
 
-def validate(ctx, path, what):
+def split_events(evs, nchunks):
+    """Cut a family trace between two cases (a case starts with its illtext or parser event), in chunks of about equal size."""
+    cuts = [i for i, e in enumerate(evs) if e.get("ev") in ("illtext", "parser") and (i == 0 or evs[i - 1].get("ev") != "illtext")]
+    if nchunks <= 1 or len(cuts) < 2 * nchunks:
+        return [evs]
+    size = lambda e: 3 + (len(e.get("text", [])) / 100.0) ** 2       # (measured: ~5 ms per event + Present!Lex on n octets ~ n^2)
+    total = sum(size(e) for e in evs)
+    out, start, acc, want = [], 0, 0, total / nchunks
+    cutset = set(cuts)
+    for i, e in enumerate(evs):
+        if i in cutset and acc >= want and len(out) < nchunks - 1:
+            out.append(evs[start:i])
+            start, acc = i, 0
+        acc += size(e)
+    out.append(evs[start:])
+    return [c for c in out if c]
+
+
+def validate(ctx, path, what, vectors=None, nchunks=1):
+    """History / line events of one harness run through Trace_Zone.  vectors: the vector file the histories come from (the
+    parser event of a history names its vector, `i'): a rejected history is then reported with that vector as its case, so
+    that the confirmation re-executes it."""
     if not os.path.exists(path) or os.path.getsize(path) == 0:
         return
-    tr = ctx.tlc_trace("Trace_Zone", path, xmx="4g", timeout=3000)
-    evs = vp.read_ndjson(path)
+    allevs = vp.read_ndjson(path)
+    chunks = split_events(allevs, nchunks)
+    if len(chunks) > 1:
+        vp.parallel([lambda ch=ch: validate_events(ctx, ch, what, vectors) for ch in chunks])
+    else:
+        validate_events(ctx, allevs, what, vectors, path=path)
+
+
+def validate_events(ctx, evs, what, vectors=None, path=None):
+    tr = ctx.tlc_trace("Trace_Zone", path if path else evs, xmx="4g", timeout=3000)
     for i in (tr.bad or []):
         if sticky_key(evs[i - 1]) == "INFRA":
             raise vp.Infra("harness %s: text is not what the harness says it spells (harness bug): %s" % (what, json.dumps(evs[i - 1])[:500]))
@@ -84,8 +137,11 @@ def validate(ctx, path, what):
         key = sticky_key(evs[j])
         if any(e.get("ev") == "readfail" for e in evs[k:j + 1]):
             key += ":after-readfail"
-        ctx.candidate(key, "history rejected by the sticky-error machine at event %d" % tr.rejected_at,
-                      {"history": evs[k:j + 1][-12:], "family": what})
+        case = {"history": evs[k:j + 1][-12:], "family": what}
+        if vectors and "i" in evs[k]:
+            v = (vp.read_emitted(vectors) if isinstance(vectors, str) else vectors)[evs[k]["i"]]
+            case.update({f: v[f] for f in ("cfg", "lines", "otext") if f in v})
+        ctx.candidate(key, "history rejected by the sticky-error machine at event %d" % tr.rejected_at, case)
         with vp._lock:
             ctx.traces += max(0, (tr.hwm or 0))
         return
@@ -109,16 +165,106 @@ SAFETY_KEYS = ("zone/accepts:", "zone/panic", "zone/timeout", "zone/open-when-di
                "zone/hostile:", "zone/sticky:")
 
 
-def shapes(ctx, binp):
-    """Every line shape alone under every configuration: only the safety side counts here (a line the spec refuses --
-    include not allowed, missing file, self-include, nested $GENERATE, bad range -- must be refused); what the
-    accepted lines denote is C06's business."""
-    r, _ = ctx.tlc_vectors("Gen_Zone", workers=1, xmx="3g", timeout=1200,
-                           consts=dict(c06.CONSTS, Mode='"seq"', N=1, Shard=0, NShards=1))
-    s = ctx.run_json(binp, ["replay", os.path.join(r.dir, "vectors.ndjson")], timeout=1200)
+SAFE = [int(x) for x in SAFETY_SHAPES.strip("{}").split(",")]
+
+
+def zone_vectors(ctx, binp, mode, cases, what):
+    """cases -> Gen_Zone (the specification says what the lines denote: records, error) -> `zone replay' with a history
+    file: there the consumer KEEPS CALLING Next after the first (nil, false) and whatever it is handed counts as returned,
+    so the vector's record list judges it; the next / poll / open history goes through Trace_Zone's sticky-error machine.
+    Only the safety side counts (a line the spec refuses must be refused, nothing after an error): what the accepted
+    lines denote is C06's business."""
+    r, vecs = ctx.tlc_vectors("Gen_Zone", workers=1, xmx="3g", timeout=1200, files={"cases.ndjson": "".join(json.dumps(c) + "\n" for c in cases)},
+                              consts=dict(c06.CONSTS, Mode='"%s"' % mode, N=0, Shard=0, NShards=1))
+    path = os.path.join(r.dir, "vectors.ndjson")
+    hist = os.path.join(r.dir, "history.ndjson")
+    s = ctx.run_json(binp, ["replay", path, "", hist], timeout=1200, env=c06.known_env(ctx))
     s["mismatches"] = [m for m in s["mismatches"] if m["key"].startswith(SAFETY_KEYS)]
     s.get("notes", {}).pop("mismatch_counts", None)
     vp.absorb(ctx, s)
+    validate(ctx, hist, what, vectors=vecs)
+
+
+def shape_cases():
+    """Every line shape alone under every configuration (include disallowed / missing file / self-include / nested
+    $GENERATE / bad range expected as errors by the spec)."""
+    return [{"c": c, "q": q} for c in range(8) for q in [[]] + [[a] for a in range(1, c06.NSHAPES + 1)]]
+
+
+def shape_pairs(ctx, binp, part, nparts):
+    """(thorough tier) every PAIR of safety shapes under every configuration: an include that is disallowed / missing /
+    self-including, a nested or ill-ranged $GENERATE ... followed by a record, an include, a $GENERATE."""
+    cases = [{"c": c, "q": [a, b]} for c in range(8) for a in SAFE for b in SAFE]
+    zone_vectors(ctx, binp, "idx", cases[part::nparts], "shape pair")
+
+
+def error_cases():
+    """Every way (that abstract lines can express) a parser comes to hold an error, at the top level, in an included file and
+    in a file included from an included file, with a record BEFORE it and records AFTER it in every file."""
+    B, ref, rr = c06.B, c06.ref, c06.rr
+
+    def inc(name, origin=None):
+        return {"k": "include", "file": B(name), "origin": origin or ref("omit")}
+
+    def a(owner, d):
+        return rr(ref("rel", owner), 5, 1, ip=[10, 0, 0, d])
+
+    def gen(lo, hi, lhs, rhs="10.0.0.1"):
+        return {"k": "generate", "lo": lo, "hi": hi, "step": 1, "lhs": B(lhs), "ttl": 5, "class": 0, "order": "tc", "type": 1,
+                "rhs": [{"raw": B(rhs), "q": False}]}
+    # (a file that includes itself is shape 35 of the shape universe; names that become longer than 255 octets when they are
+    # completed are left to C06: the pinned parser checks only the relative part -- see the report of round 6)
+    errs = [inc("nofile"), inc("nofile", ref("rel", "sub")), gen(5, 4, "h$"), gen(1, 2, "$$GENERATE"), gen(1, 2, "h${0,0,q}"),
+            gen(254, 257, "h$", "10.0.0.$")]
+    e9 = ("e9", [a("n", 31)])
+    # what follows the failing entry: a record, an include (no Open after an error), a $GENERATE, a record
+    more = lambda t: [a(t + "1", 9), inc("e9"), gen(1, 2, t + "g$"), a(t + "2", 10)]
+    cases = []
+    for e in errs:
+        inner = [a("x1", 11), e] + more("y")
+        cases.append({"cfg": c06.cfg([e9]), "lines": [a("pre", 1), e] + more("after")})
+        top = [a("pre", 1), inc("e1", ref("rel", "sub"))] + more("after")
+        cases.append({"cfg": c06.cfg([e9, ("e1", inner)]), "lines": top})
+        cases.append({"cfg": c06.cfg([e9, ("e1", [a("x0", 21), inc("e2")] + more("w")), ("e2", inner)]), "lines": top})
+    off = c06.cfg([e9, ("e1", [a("x1", 11)])])
+    off["incAllowed"] = False
+    cases.append({"cfg": off, "lines": [a("pre", 1), inc("e1")] + more("after")})
+    return cases
+
+
+def origin_texts(rnd):
+    l63, l64 = "a" * 63, "a" * 64
+    three = ".".join([l63] * 3) + "."
+    fixed = ["", ".", "example.", "example", "a.b.c.", "Ex\\.ample.", "\\065b.", "x\\000y.", "a b.", l63 + ".", three + "b" * 61 + ".", "a." * 127,
+             "@", "*.", "$ORIGIN.", ";x.", "(", "\x00.", "\xe9.", "\\.",
+             "bad..origin.", "bad..origin", "..", "...", ".a.", ".a", "a..", "a..b", l64 + ".", l64, "x." + l64 + ".y.", three + "b" * 62 + ".", three + "b" * 62,
+             ".".join([l63] * 4) + ".", "a." * 128, "a" * 300,
+             "\\300.", "a\\", "\\"]
+    out = list(fixed)
+    while len(out) < len(fixed) + 24:
+        t = "".join(rnd.choice("aa..\\019 @") for _ in range(rnd.randrange(1, 8)))
+        if t not in out:
+            out.append(t)
+    return out
+
+
+def origin_cases(rnd):
+    """"Any origin": the initial origin is TEXT.  Zone!OriginOfText says which texts are domain names; with one that is not,
+    the parser is in error before the first line: no record, no Open, whatever the zone says (and however often Next is
+    called); with one that is, the zone parses as usual."""
+    cases = []
+    for t in origin_texts(rnd):
+        ot = list(t.encode("latin1"))
+        if len(ot) > 200:        # (relative names completed with such an origin pass 255 octets: C06's business, see error_cases)
+            cases += [{"c": 1, "q": q, "otext": ot} for q in ([3], [12, 3, 12])]
+            continue
+        cases += [{"c": 1, "q": q, "otext": ot} for q in ([1, 2], [12, 1], [22, 1], [3])] + [{"c": 5, "q": [1], "otext": ot}]
+    return cases
+
+
+def vectors(ctx, binp, rnd):
+    """One Gen_Zone run ("ofile": mixed cases), one replay, one history validation for the three vector universes."""
+    zone_vectors(ctx, binp, "ofile", shape_cases() + error_cases() + origin_cases(rnd), "zone vector")
 
 
 def prefixes(ctx, binp):
@@ -151,7 +297,7 @@ def families(ctx, binp):
     out = os.path.join(ctx.out, "families.ndjson")
     s = ctx.run_json(binp, ["hostile", out], timeout=3000)
     vp.absorb(ctx, s)
-    vp.parallel([lambda: validate(ctx, out, "family"), lambda: validate(ctx, out + ".io", "io-error family")])
+    vp.parallel([lambda: validate(ctx, out, "family", nchunks=3), lambda: validate(ctx, out + ".io", "io-error family")])
     return s
 
 
@@ -164,7 +310,7 @@ def run(ctx):
             lambda: ctx.tlc("MC_Present", consts={"StrLen": 5, "OctLen": 3}, workers=3, timeout=900),
             lambda: ctx.tlc("MC_Zone", consts=dict(MaxLines=2, ShapeSet=SAFETY_SHAPES, PolSet="{0, 15}"), workers=3, timeout=900),
             lambda: texts(ctx, binp, 5, 1, [0]),
-            lambda: shapes(ctx, binp),
+            lambda: vectors(ctx, binp, rnd),
             lambda: families(ctx, binp),
             lambda: prefixes(ctx, binp),
             lambda: insertions(ctx, binp),
@@ -173,11 +319,11 @@ def run(ctx):
         vp.parallel([
             lambda: ctx.tlc("MC_Present", consts={"StrLen": 6, "OctLen": 4}, workers=4, timeout=1800),
             lambda: ctx.tlc("MC_Zone", consts=dict(MaxLines=3, ShapeSet=SAFETY_SHAPES, PolSet="{0, 15}"), workers=4, timeout=3000),
-            lambda: shapes(ctx, binp),
+            lambda: vectors(ctx, binp, rnd),
             lambda: families(ctx, binp),
             lambda: prefixes(ctx, binp),
             lambda: insertions(ctx, binp),
-        ])
+        ] + [lambda k=k: shape_pairs(ctx, binp, k, 4) for k in range(4)])
         texts(ctx, binp, 6, 11, range(11), par=11)
         texts(ctx, binp, 7, 121, rnd.sample(range(121), 12), par=12)
     ctx.assumptions += [
@@ -186,6 +332,9 @@ def run(ctx):
         "ParseError exposes no accessors: file, line and column are read from Error() ('<file>: dns: ... at line: L:C')",
         "lexical ill-formedness is asserted only for unbalanced ')' , '(' open at end of text, unterminated quote, and not for texts using escapes RFC 1035 leaves undefined",
         "include depth: at least 3 levels work, at most 64 Opens on a chain of nested includes (the property fixes no number)",
+        "initial origin as text: made fully qualified (a relative one is completed with the root), an error exactly when the result is not a domain name "
+        "(empty label, label > 63, name > 255); \\DDD > 255 and a dangling backslash are unconstrained; an origin error carries no line / column (it is not a syntax error of the text)",
+        "names that pass 255 octets only when completed with the origin are not part of this check's universes (the pinned parser validates the relative part only: see C06)",
     ]
     return ctx.finish(rule="vectors: every text over an 11-character alphabet up to length n with its lexical classification, run under 2 configurations; "
                       "families: ~700 structured hostile cases; events: next/open histories (all families + 1/61 of the texts) through the sticky-error machine, "
@@ -195,7 +344,21 @@ def run(ctx):
 
 def rerun(ctx, binp, case):
     if "cfg" in case and "lines" in case:
-        return [m for m in c06.rejudge(ctx, binp, {"cfg": case["cfg"], "lines": case["lines"]}) if m["key"].startswith(SAFETY_KEYS)]
+        # a zone vector: the specification recomputes what the lines denote (Gen_Zone "file", or "ofile" when the initial
+        # origin is given as text), the harness replays with the persistent consumer, Trace_Zone judges the histories
+        full = c06.given(case)
+        mode = "file"
+        if "otext" in case:
+            full, mode = {"cfg": case["cfg"], "lines": case["lines"], "otext": case["otext"]}, "ofile"
+        r, _ = ctx.tlc_vectors("Gen_Zone", workers=1, xmx="3g", timeout=1200, count=False, files={"cases.ndjson": json.dumps(full) + "\n"},
+                               consts=dict(c06.CONSTS, Mode='"%s"' % mode, N=0, Shard=0, NShards=1))
+        path, hist = os.path.join(r.dir, "vectors.ndjson"), os.path.join(r.dir, "history.ndjson")
+        s = ctx.run_json(binp, ["replay", path, "", hist], env=c06.known_env(ctx))
+        sub = vp.Ctx.__new__(vp.Ctx)
+        sub.__dict__.update(ctx.__dict__)
+        sub.cands = []
+        validate(sub, hist, "vector", vectors=path)
+        return [m for m in s["mismatches"] if m["key"].startswith(SAFETY_KEYS)] + [{"key": c["key"]} for c in sub.cands]
     if "text" in case and "ill" in case:      # a generated text with its classification
         p = os.path.join(ctx.out, "one.ndjson")
         vp.write_ndjson(p, [dict(case, kind="text")])
@@ -207,6 +370,7 @@ def rerun(ctx, binp, case):
     sub.__dict__.update(ctx.__dict__)
     sub.cands = []
     validate(sub, out, "family")
+    validate(sub, out + ".io", "io-error family")
     return ms + [{"key": c["key"]} for c in sub.cands]
 
 
